@@ -8,7 +8,7 @@
    read from the block the scan wrote for it. The remaining negative result (_refuted) is a
    finding about an unused table of /repo. *)
 From V Require Import Common.Base Gen.JpegTables_gen JpegDCT.DctQuant JpegDCT.DctZigzag JpegDCT.DctGeometry
-  JpegDCT.DctPipeline JpegDCT.DctProofsA JpegDCT.DctProofsB.
+  JpegDCT.DctPipeline JpegDCT.DctRestart JpegDCT.DctProofsA JpegDCT.DctProofsB JpegDCT.DctProofsS.
 
 (* every BITS/HUFFVAL pair of jpeg/standard is a valid prefix-code description: 16
    non-negative counts summing to the number of symbols, Kraft sum < 1 within 16 bits (the
@@ -160,3 +160,35 @@ Theorem C15_out_index_in_range : forall width height ncomp x y ch,
   0 <= (y * width + x) * ncomp + ch < out_len width height ncomp.
 Proof. exact out_index_in_range. Qed.
 Print Assumptions C15_out_index_in_range.
+
+(* ---------- restart intervals (decodeScan after fix F15) ----------
+   Historical note (finding F15, fixed): RSTn markers used to be dropped from the scan data
+   without byte alignment or DC reset; reproducer 1x9 grey, DRI = 1. *)
+
+(* segments = split at RSTn: a scan body of clean (stuffed) segments separated by RSTn and
+   ended by another marker is split into exactly those segments *)
+Theorem C15_split_rst_segments : forall ri segs, 0 < ri -> seps_ok segs = true ->
+  split_rst ri (join segs) = map fst segs.
+Proof. exact split_rst_segments. Qed.
+Print Assumptions C15_split_rst_segments.
+Example C15_split_rst_instance :
+  seps_ok [([96], 208); ([255; 0; 7], 209); ([], 217)] = true /\
+  split_rst 1 (join [([96], 208); ([255; 0; 7], 209); ([], 217)]) = [[96]; [255; 0; 7]; []].
+Proof. split; vm_compute; reflexivity. Qed.
+
+(* MCU j is decoded from interval j / restartInt, and the DC predictors are zeroed before it
+   exactly when j > 0 and j mod restartInt = 0 *)
+Theorem C15_mcu_plan_spec : forall ri nint n l, 0 < ri -> mcu_plan ri nint n = Some l ->
+  length l = n /\
+  forall j, (j < n)%nat ->
+    nth j l (0, false) = (Z.of_nat j / ri, (0 <? Z.of_nat j) && (Z.of_nat j mod ri =? 0)).
+Proof. exact mcu_plan_spec. Qed.
+Print Assumptions C15_mcu_plan_spec.
+Example C15_mcu_plan_instance :
+  mcu_plan 2 3 5 = Some [(0, false); (0, false); (1, true); (1, false); (2, true)] /\ mcu_plan 2 2 5 = None.
+Proof. split; vm_compute; reflexivity. Qed.
+
+(* without DRI nothing is reset and only interval 0 is used *)
+Theorem C15_mcu_plan_no_restart : forall nint n, mcu_plan 0 nint n = Some (repeat (0, false) n).
+Proof. exact mcu_plan_no_restart. Qed.
+Print Assumptions C15_mcu_plan_no_restart.
